@@ -5,7 +5,7 @@
 Require Extraction.
 Require Import ExtrOcamlBasic.
 From Coq Require Import ZArith.
-From BE Require Model.Timer Model.Regs.
+From BE Require Model.Timer Model.Regs Model.Decode.
 Extraction Language OCaml.
 
 Definition timer_py_run := Timer.py_run.
@@ -15,6 +15,14 @@ Definition timer_rs_init := Timer.rs_init.
 Definition regs_py_run := Regs.py_run Regs.py_init.
 Definition regs_rs_run := Regs.rs_run Regs.rs_init.
 
+Definition dec_decode := Decode.decode.
+Definition dec_encode := Decode.encode.
+Definition dec_info := Decode.c_info.
+Definition dec_text := Decode.c_text.
+Definition dec_llil := Decode.c_llil.
+Definition dec_emu := Decode.c_emu.
+
 Extraction "Extract/model.ml"
   BinInt.Z.add timer_py_run timer_rs_run timer_py_init timer_rs_init
-  regs_py_run regs_rs_run.
+  regs_py_run regs_rs_run
+  dec_decode dec_encode dec_info dec_text dec_llil dec_emu.
